@@ -157,6 +157,15 @@ def _which_read(fv, bi):
     return "?"
 
 
+def _arg_locals(t):
+    out = set()
+    for a in t.get("args", []):
+        q = a.get("c") or a.get("m")
+        if q:
+            out.add(q["l"])
+    return out
+
+
 # ---------------------------------------------------------------------------------------------- R06.6
 def check_insert_any_changed(prog, r):
     fv = view(prog, prog.one(r"rustybgp_table::Table::insert"))
@@ -190,6 +199,44 @@ def check_insert_any_changed(prog, r):
                         old_side = True
             if any(c.endswith("RibEntry::is_filtered") for c in cs) and "replaced" in vs:
                 old_side = True
+    if new_side and not old_side:
+        # the replaced entry's visibility may reach any_changed through other locals (a tuple built by a `match replaced {..}`):
+        # follow the definitions backwards through copies, tuple fields and several definitions
+        plain = Renderer(fv, depth=6)
+        seen_l, work = set(), list(ls)
+        hops = 0
+        while work and hops < 40:
+            hops += 1
+            l = work.pop()
+            if l in seen_l:
+                continue
+            seen_l.add(l)
+            for bi, si, s in fv.defs().get(l, []):
+                if bi not in fv.live:
+                    continue
+                t_ = fv.blocks[bi]["t"]
+                if si == "t":
+                    if any(n.endswith("RibEntry::is_filtered") for n in callee_names(t_)):
+                        e_arg = rend.operand(t_["args"][0], 12)
+                        if "replaced" in expr_vars(e_arg) or "replaced" in show(e_arg, 300) or any("RibEntry" in fv.f["locals"][x] and "Option" in fv.f["locals"][x] for x in _arg_locals(t_)):
+                            old_side = True
+                    for a in t_["args"]:
+                        q = a.get("c") or a.get("m")
+                        if q:
+                            work.append(q["l"])
+                    continue
+                def _ls(x, out):
+                    if isinstance(x, dict):
+                        if isinstance(x.get("l"), int):
+                            out.add(x["l"])
+                        for v in x.values():
+                            _ls(v, out)
+                    elif isinstance(x, list):
+                        for v in x:
+                            _ls(v, out)
+                o = set()
+                _ls(s["rv"], o)
+                work += list(o)
     if new_side and old_side:
         r.ok("Table::insert: any_changed depends on the new path's visibility and on the replaced path's")
     else:
@@ -449,11 +496,27 @@ def check_deferral(prog, r):
             else:
                 r.fail(ins.name, "deferring-nochange-before-store", "while deferring, insert can return NoChange before storing the entry: the route is lost, not deferred", ins.loc(bi))
     if n == 0:
+        # the deferral test may be folded into one flag (`let notify = !deferring && (..)`): then the NoChange that the
+        # deferring case takes is the one not restricted to `deferring == false`; it must still come after the store
+        for bi, si, s in ins.aggregates(re.compile(r"rustybgp_table::InsertResult"), "NoChange"):
+            gs = flat_guards(ins, bi, named=True)
+            if any(_mentions_deferring(g) and labels == {"false"} and how != "not" for g, labels, how in gs):
+                continue
+            from ..util import bool_true_requires
+            folded = any(g[0] == "var" and labels == {"false"} and any(_mentions_deferring(g2) and l2 == {"false"} for g2, l2, h2 in bool_true_requires(ins, g[1])) for g, labels, how in gs)
+            if ins.dominated_by_any(bi, stores) and (folded or any(g[0] == "matches" and any(_mentions_deferring(x) for x, ll in g[1]) for g, labels, how in gs)):
+                n += 1
+                r.ok("insert: the NoChange taken while deferring is dominated by the entry store")
+    if n == 0:
         r.unanalysable("Table::insert: no NoChange return guarded by `deferring` found", ins.loc())
     # ... and nothing else leaves insert while deferring: every InsertResult::Changed needs `deferring` to be false
     for bi, si, s in ins.aggregates(re.compile(r"rustybgp_table::InsertResult"), "Changed"):
-        gs = flat_guards(ins, bi)
-        if any(_mentions_deferring(g) and labels == {"false"} for g, labels, how in gs):
+        gs = flat_guards(ins, bi) + flat_guards(ins, bi, named=True)
+        from ..util import bool_true_requires
+        for g, labels, how in list(gs):
+            if g[0] == "var" and labels == {"true"}:
+                gs += bool_true_requires(ins, g[1])        # a flag that folds the tests: what it being true implies
+        if any(_mentions_deferring(g) and labels == {"false"} and how != "not" for g, labels, how in gs):
             r.ok("insert: Changed is returned only when the family is not deferring")
         else:
             r.fail(ins.name, "changed-while-deferring", "Table::insert can return InsertResult::Changed while the family is deferring: the route is distributed before End-of-RIB / the deferral "
